@@ -21,6 +21,7 @@ import (
 	"fmt"
 	"io"
 	"os"
+	"sync/atomic"
 	"time"
 
 	"github.com/bbva/qed/metrics"
@@ -519,12 +520,19 @@ func (s *RocksDBStore) DeleteBackup(backupID uint32) error {
 	return nil
 }
 
+// extractorSeq numbers the log-data extractors of FetchSnapshot calls.
+var extractorSeq uint64
+
 // FetchSnapshot fetches all WAL transactions from the first available
 // seq_num to the last one specified in the lastSeqNum parameter, and dumps
 // them to the given writer.
 func (s *RocksDBStore) FetchSnapshot(w io.WriteCloser, since, until uint64, valid storage.ValidateF) error {
 
-	extractor := rocksdb.NewLogDataExtractor(s.path)
+	// every transfer registers its own extractor: with a shared id, transfers
+	// to several nodes at once read each other's metadata and the first one
+	// to finish unregisters the extractor the others are still using.
+	id := fmt.Sprintf("%s#%d", s.path, atomic.AddUint64(&extractorSeq, 1))
+	extractor := rocksdb.NewLogDataExtractor(id)
 	defer func() {
 		extractor.Destroy()
 	}()
